@@ -317,9 +317,8 @@ impl FsmExecutor {
     /// Sends some event to a session.
     pub fn send_to_session(&self, session_id: SessionId, event: Event) -> Result<(), SendError<Box<Event>>> {
         match self.get_session_sender(session_id) {
-            None => {
-                todo!("Handling of unknown session")
-            }
+            // Unknown session: the event can't be delivered, the caller gets it back.
+            None => Err(SendError(Box::new(event))),
             Some(sender) => sender.send(Box::new(event)),
         }
     }
